@@ -120,13 +120,13 @@ def run_c14(h):
         for fname, want in checks:
             d = values_differ(ex, st.pc, inner.f[F[fname]], want, fname)
             if d:
-                out.append(ST.Mismatch(['ctor'], 'constructor %s: field %s is not that of the initial boundary state (%s)' % (cname, fname, d[0]), d[1], {'ctor': cname}))
+                out.append(ST.Mismatch(['ctor'], 'constructor %s: field %s is not that of the initial boundary state (%s)' % (cname, fname, d[0]), d[1], {'ctor': cname}, post=True))
         for i in range(len(inner.f)):
             if names.get(i) == 'input':
                 continue
             d = values_differ(ex, st.pc, inner.f[i], ref_inner.f[i], names.get(i, str(i)))
             if d:
-                out.append(ST.Mismatch(['ctor'], 'constructors %s and %s differ in field %s' % (cname, ref_name, d[0]), d[1], {'ctor': cname}))
+                out.append(ST.Mismatch(['ctor'], 'constructors %s and %s differ in field %s' % (cname, ref_name, d[0]), d[1], {'ctor': cname}, post=True))
     h.stats['paths'] += 4
     h.cover('token')
     return out
